@@ -53,14 +53,17 @@ pub struct Plan {
     /// bytes the disk will still accept (ENOSPC once exhausted; a write crossing the limit is shortened)
     #[serde(default)]
     pub capacity: Option<u64>,
+    /// index of the fsync/fdatasync call -> errno
+    #[serde(default)]
+    pub sync: BTreeMap<u64, i32>,
 }
 
 impl Plan {
     pub fn is_empty(&self) -> bool {
-        self.open.is_empty() && self.write.is_empty() && self.read.is_empty() && self.capacity.is_none()
+        self.open.is_empty() && self.write.is_empty() && self.read.is_empty() && self.capacity.is_none() && self.sync.is_empty()
     }
     pub fn n_faults(&self) -> usize {
-        self.open.len() + self.write.len() + self.read.len() + self.capacity.is_some() as usize
+        self.open.len() + self.write.len() + self.read.len() + self.capacity.is_some() as usize + self.sync.len()
     }
 }
 
@@ -101,6 +104,7 @@ pub struct World {
     pub n_open: u64,
     pub n_write: u64,
     pub n_read: u64,
+    pub n_sync: u64,
     pub sticky_write: Option<i32>,
     pub sticky_read: Option<i32>,
     pub keys: VecDeque<(u64, u64)>,
@@ -121,10 +125,12 @@ impl World {
                 write: BTreeMap::new(),
                 read: BTreeMap::new(),
                 capacity: None,
+                sync: BTreeMap::new(),
             },
             n_open: 0,
             n_write: 0,
             n_read: 0,
+            n_sync: 0,
             sticky_write: None,
             sticky_read: None,
             keys: VecDeque::new(),
@@ -170,6 +176,7 @@ pub fn reset_world() {
     w.n_open = 0;
     w.n_write = 0;
     w.n_read = 0;
+    w.n_sync = 0;
     w.sticky_write = None;
     w.sticky_read = None;
     w.keys.clear();
@@ -183,8 +190,13 @@ pub fn install_plan(p: Plan) {
     w.n_open = 0;
     w.n_write = 0;
     w.n_read = 0;
+    w.n_sync = 0;
     w.sticky_write = None;
     w.sticky_read = None;
+}
+
+pub fn sync_count() -> u64 {
+    world().n_sync
 }
 
 pub fn syscall_counts() -> (u64, u64, u64) {
@@ -572,6 +584,216 @@ pub unsafe extern "C" fn getrandom(buf: *mut libc::c_void, buflen: usize, flags:
 }
 
 // ---------------------------------------------------------------------------------------------
+// the rest of the file API std may use on a simulated file: metadata, seek, sync, truncate.
+// Without these a perfectly correct exporter/importer that calls sync_all(), metadata().len(),
+// seek() or set_len() would see /dev/null's answers and be reported for it.
+// ---------------------------------------------------------------------------------------------
+
+fn is_sim_fd(fd: i32) -> bool {
+    fd >= 0 && (fd as usize) < MAX_FD && SIM_FD[fd as usize].load(Ordering::SeqCst)
+}
+
+fn sim_fd_len(fd: i32) -> Option<u64> {
+    let w = world();
+    let f = w.fds.get(&fd)?;
+    Some(w.disk.get(&f.path).map(|i| i.len()).unwrap_or(0) as u64)
+}
+
+fn sim_path_len(p: &str) -> Option<u64> {
+    world().disk.get(p).map(|i| i.len() as u64)
+}
+
+unsafe fn fill_statx(buf: *mut libc::statx, len: u64) {
+    std::ptr::write_bytes(buf, 0, 1);
+    (*buf).stx_mask = libc::STATX_BASIC_STATS;
+    (*buf).stx_blksize = 4096;
+    (*buf).stx_nlink = 1;
+    (*buf).stx_mode = (libc::S_IFREG | 0o644) as u16;
+    (*buf).stx_size = len;
+    (*buf).stx_blocks = len.div_ceil(512);
+}
+
+#[no_mangle]
+pub unsafe extern "C" fn statx(dirfd: i32, path: *const libc::c_char, flags: i32, mask: libc::c_uint, buf: *mut libc::statx) -> i32 {
+    let empty = path.is_null() || *path == 0;
+    if empty && is_sim_fd(dirfd) {
+        if let Some(len) = sim_fd_len(dirfd) {
+            fill_statx(buf, len);
+            return 0;
+        }
+    }
+    if let Some(p) = path_of(path) {
+        return match sim_path_len(&p) {
+            Some(len) => {
+                fill_statx(buf, len);
+                0
+            }
+            None => {
+                set_errno(libc::ENOENT);
+                -1
+            }
+        };
+    }
+    libc::syscall(libc::SYS_statx, dirfd, path, flags, mask, buf) as i32
+}
+
+unsafe fn fill_stat(buf: *mut libc::stat, len: u64) {
+    std::ptr::write_bytes(buf, 0, 1);
+    (*buf).st_mode = libc::S_IFREG | 0o644;
+    (*buf).st_nlink = 1;
+    (*buf).st_size = len as i64;
+    (*buf).st_blksize = 4096;
+    (*buf).st_blocks = len.div_ceil(512) as i64;
+}
+
+#[no_mangle]
+pub unsafe extern "C" fn fstat(fd: i32, buf: *mut libc::stat) -> i32 {
+    if is_sim_fd(fd) {
+        if let Some(len) = sim_fd_len(fd) {
+            fill_stat(buf, len);
+            return 0;
+        }
+    }
+    libc::syscall(libc::SYS_fstat, fd, buf) as i32
+}
+
+#[no_mangle]
+pub unsafe extern "C" fn fstat64(fd: i32, buf: *mut libc::stat) -> i32 {
+    // on x86_64 stat and stat64 have the same layout
+    fstat(fd, buf)
+}
+
+unsafe fn stat_path(path: *const libc::c_char, buf: *mut libc::stat, nofollow: bool) -> i32 {
+    if let Some(p) = path_of(path) {
+        return match sim_path_len(&p) {
+            Some(len) => {
+                fill_stat(buf, len);
+                0
+            }
+            None => {
+                set_errno(libc::ENOENT);
+                -1
+            }
+        };
+    }
+    libc::syscall(libc::SYS_newfstatat, libc::AT_FDCWD, path, buf, if nofollow { libc::AT_SYMLINK_NOFOLLOW } else { 0 }) as i32
+}
+
+#[no_mangle]
+pub unsafe extern "C" fn stat(path: *const libc::c_char, buf: *mut libc::stat) -> i32 {
+    stat_path(path, buf, false)
+}
+#[no_mangle]
+pub unsafe extern "C" fn stat64(path: *const libc::c_char, buf: *mut libc::stat) -> i32 {
+    stat_path(path, buf, false)
+}
+#[no_mangle]
+pub unsafe extern "C" fn lstat(path: *const libc::c_char, buf: *mut libc::stat) -> i32 {
+    stat_path(path, buf, true)
+}
+#[no_mangle]
+pub unsafe extern "C" fn lstat64(path: *const libc::c_char, buf: *mut libc::stat) -> i32 {
+    stat_path(path, buf, true)
+}
+
+unsafe fn sim_lseek(fd: i32, off: i64, whence: i32) -> i64 {
+    let mut w = world();
+    let Some(path) = w.fds.get(&fd).map(|f| f.path.clone()) else {
+        drop(w);
+        set_errno(libc::EBADF);
+        return -1;
+    };
+    let len = w.disk.get(&path).map(|i| i.len()).unwrap_or(0) as i64;
+    let cur = w.fds.get(&fd).map(|f| f.off).unwrap_or(0) as i64;
+    let new = match whence {
+        libc::SEEK_SET => off,
+        libc::SEEK_CUR => cur + off,
+        libc::SEEK_END => len + off,
+        _ => -1,
+    };
+    if new < 0 {
+        drop(w);
+        set_errno(libc::EINVAL);
+        return -1;
+    }
+    w.fds.get_mut(&fd).unwrap().off = new as usize;
+    w.ev(Ev { sys: b's', idx: 0, req: off as u64, act: whence as u8, ret: new });
+    new
+}
+
+#[no_mangle]
+pub unsafe extern "C" fn lseek(fd: i32, off: i64, whence: i32) -> i64 {
+    if is_sim_fd(fd) {
+        return sim_lseek(fd, off, whence);
+    }
+    libc::syscall(libc::SYS_lseek, fd, off, whence)
+}
+#[no_mangle]
+pub unsafe extern "C" fn lseek64(fd: i32, off: i64, whence: i32) -> i64 {
+    lseek(fd, off, whence)
+}
+
+unsafe fn sim_sync(_fd: i32) -> i32 {
+    crate::sched::point();
+    let mut w = world();
+    let idx = w.n_sync;
+    w.n_sync += 1;
+    if let Some(&errno) = w.plan.sync.get(&idx) {
+        w.fire("fsync_err");
+        w.ev(Ev { sys: b'y', idx, req: 0, act: 3, ret: -(errno as i64) });
+        drop(w);
+        set_errno(errno);
+        return -1;
+    }
+    w.ev(Ev { sys: b'y', idx, req: 0, act: 0, ret: 0 });
+    0
+}
+
+#[no_mangle]
+pub unsafe extern "C" fn fsync(fd: i32) -> i32 {
+    if is_sim_fd(fd) {
+        return sim_sync(fd);
+    }
+    libc::syscall(libc::SYS_fsync, fd) as i32
+}
+#[no_mangle]
+pub unsafe extern "C" fn fdatasync(fd: i32) -> i32 {
+    if is_sim_fd(fd) {
+        return sim_sync(fd);
+    }
+    libc::syscall(libc::SYS_fdatasync, fd) as i32
+}
+
+unsafe fn sim_truncate(fd: i32, len: i64) -> i32 {
+    let mut w = world();
+    let Some(path) = w.fds.get(&fd).map(|f| f.path.clone()) else {
+        drop(w);
+        set_errno(libc::EBADF);
+        return -1;
+    };
+    if len < 0 {
+        drop(w);
+        set_errno(libc::EINVAL);
+        return -1;
+    }
+    w.disk.entry(path).or_default().resize(len as usize, 0);
+    w.ev(Ev { sys: b't', idx: 0, req: len as u64, act: 0, ret: 0 });
+    0
+}
+
+#[no_mangle]
+pub unsafe extern "C" fn ftruncate(fd: i32, len: i64) -> i32 {
+    if is_sim_fd(fd) {
+        return sim_truncate(fd, len);
+    }
+    libc::syscall(libc::SYS_ftruncate, fd, len) as i32
+}
+#[no_mangle]
+pub unsafe extern "C" fn ftruncate64(fd: i32, len: i64) -> i32 {
+    ftruncate(fd, len)
+}
+
+// ---------------------------------------------------------------------------------------------
 // clock seam: inside a party, every clock the process can read is the simulated one
 // ---------------------------------------------------------------------------------------------
 
@@ -778,6 +1000,44 @@ pub fn liveness_selftest() -> Result<(), String> {
     std::fs::remove_file(sim_path("a.txt")).map_err(|e| format!("unlink seam dead: {e}"))?;
     if disk_get("/SIMDISK/a.txt").is_some() {
         return Err("unlink seam: file still there".into());
+    }
+    // 3b'. metadata, seek, sync, set_len on a simulated file
+    {
+        use std::io::{Seek, SeekFrom};
+        install_plan(Plan::default());
+        std::fs::write(sim_path("m.txt"), b"0123456789").map_err(|e| e.to_string())?;
+        let md = std::fs::metadata(sim_path("m.txt")).map_err(|e| format!("stat seam dead: {e}"))?;
+        if md.len() != 10 || !md.is_file() {
+            return Err(format!("stat seam: metadata says len {} is_file {}", md.len(), md.is_file()));
+        }
+        let mut f = std::fs::OpenOptions::new().read(true).write(true).open(sim_path("m.txt")).map_err(|e| e.to_string())?;
+        if f.metadata().map(|m| m.len()).ok() != Some(10) {
+            return Err("fstat/statx seam dead: File::metadata does not see the simulated length".into());
+        }
+        if f.seek(SeekFrom::End(-3)).ok() != Some(7) {
+            return Err("lseek seam dead".into());
+        }
+        let mut tail = String::new();
+        f.read_to_string(&mut tail).map_err(|e| e.to_string())?;
+        if tail != "789" {
+            return Err(format!("lseek seam: read {tail:?} after seeking"));
+        }
+        f.sync_all().map_err(|e| format!("fsync seam dead: sync_all on a simulated file failed: {e}"))?;
+        f.set_len(4).map_err(|e| format!("ftruncate seam dead: {e}"))?;
+        if disk_get("/SIMDISK/m.txt").as_deref() != Some(b"0123".as_slice()) {
+            return Err("ftruncate seam: wrong image".into());
+        }
+        let mut plan = Plan::default();
+        plan.sync.insert(0, libc::EIO);
+        install_plan(plan);
+        match f.sync_data() {
+            Err(e) if e.raw_os_error() == Some(libc::EIO) => {}
+            other => return Err(format!("injected fsync error did not surface: {other:?}")),
+        }
+        install_plan(Plan::default());
+        if std::fs::read_to_string(sim_path("m.txt")).ok().as_deref() != Some("0123") {
+            return Err("read_to_string on a simulated file".into());
+        }
     }
     // 3c. clock seam: inside a party the clocks are simulated, outside they are real
     let real0 = std::time::SystemTime::now().duration_since(std::time::UNIX_EPOCH).map(|d| d.as_secs()).unwrap_or(0);
